@@ -61,7 +61,32 @@ def sh(cmd, cwd=None, env=None, timeout=None):
         return 124, 'timeout'
 
 
+MODE = 'ops'
+
+
 def gen_mutants(path):
+    if MODE == 'delete':
+        return gen_deletions(path)
+    return gen_op_mutants(path)
+
+
+def gen_deletions(path):
+    """statement deletion: single-line statements that are calls / assignments (not declarations)"""
+    src = open(f'/repo/{path}').read()
+    cut = src.find('#[cfg(test)]')
+    body = src if cut < 0 else src[:cut]
+    muts = []
+    for li, line in enumerate(body.split('\n')):
+        st = line.strip()
+        if not st.endswith(';') or st.startswith(('let ', 'use ', 'pub ', '//', 'return', 'const ', 'type ', 'static ', 'mod ', '}', ')')):
+            continue
+        if st.count('(') != st.count(')'):
+            continue
+        muts.append((li, 0, st, '/* deleted */', line[:len(line) - len(line.lstrip())] + '/* deleted */'))
+    return src, muts
+
+
+def gen_op_mutants(path):
     src = open(f'/repo/{path}').read()
     cut = src.find('#[cfg(test)]')
     body = src if cut < 0 else src[:cut]
@@ -83,6 +108,7 @@ def gen_mutants(path):
 
 
 def main():
+    global MODE
     files = list(FILES)
     limit = None
     out = '/verif/seeded/MUTATION_SWEEP.md'
@@ -95,6 +121,8 @@ def main():
             limit = int(args.pop(0))
         elif a == '--out':
             out = args.pop(0)
+        elif a == '--mode':
+            MODE = args.pop(0)
     sh(f'git -C /repo worktree remove --force {REPO}')
     shutil.rmtree(MU, ignore_errors=True)
     os.makedirs(MU)
@@ -134,7 +162,8 @@ def main():
             incon = []
             env2 = dict(env)
             env2.pop('CARGO_TARGET_DIR')
-            for cid in FILES[path]:
+            checks = FILES[path] if MODE == 'ops' else list(dict.fromkeys(FILES[path] + ['C02', 'C03', 'C14', 'C12', 'C13', 'C19']))
+            for cid in checks:
                 rc, o = sh(f'{VERIF}/bin/check {cid} quick', env=env2, timeout=1500)
                 if rc == 1 and 'VIOLATION' in o:
                     caught = cid
